@@ -245,9 +245,7 @@ def lang_check(g, spec, event_of=down_token, exact=True, empty_ok=True, classes=
                 root, steps = access_path(dd[1])
                 if '!take' in steps or recv_class(dd[1]) in classes:
                     empty = True
-        if n['kind'] in ('call', 'enter'):
-            if n['kind'] == 'enter' and n.get('via') in ('std::option::Option::map_or', 'std::option::Option::map', 'std::option::Option::is_none_or'):
-                pass
+        if n['kind'] in ('call', 'enter', 'assign', 'drop'):
             toks = event_of(n)
             if toks:
                 for t in toks:
